@@ -39,6 +39,7 @@ def _names(abi):
 
 class _Loop(instrument.LoopSpec):
     local_names = ("clobber", "read", "reg")
+    mutates = ("available_scratch_registers", "clobbered_registers")
     which = None
 
     def __init__(self, ctx, iterable, env):
@@ -266,8 +267,25 @@ def replay(abi):
     return rp
 
 
+def bounded_alloc(abi):
+    """B safety net: the same contract checked natively on an enumerated set of Constraints (see replay())"""
+    def run():
+        from pyvc.run import BResult
+        br = BResult()
+        br.bound = "clobbers: none / every single register / pairs of the first 6; reads: none / one of the first 8; scratch 0,1,2,3,|U|; preserve_caller_saved x2"
+        br.clauses = ["alloc-native/scratch-and-clobbered-sets-as-the-contract-says"]
+        r = replay(abi)(None, {})
+        br.cases = br.nontrivial = 1
+        if r.get("confirmed"):
+            br.failures.append({"clause": br.clauses[0], "witness": {"constraints": r.get("constraints")}, "detail": "observed %s expected %s" % (r.get("observed"), r.get("expected"))})
+        br.samples = [{"abi": type(abi).__name__}]
+        return br
+    return run
+
+
 def jobs(tier="quick", seed=0):
     for name, abi, syntax in c16.abis():
+        yield Job("C16/alloc-native/%s" % name, bounded_alloc(abi), kind="B", func="gtirb_rewriting.abi:ABI._allocate_patch_registers")
         yield Job("C16/alloc/%s" % name, make_harness(name, abi), setup=lambda abi=abi: _setup(abi), kind="D", replay=replay(abi),
                   func="gtirb_rewriting.abi:ABI._allocate_patch_registers",
                   expect_cover=("allocated", "too-many-requested", "loop-preserved:abi:ABI._allocate_patch_registers#0",
